@@ -24,6 +24,9 @@ func (p *Pubcomp) String() string {
 // NewPubcompPacket returns a Pubcomp instance by the given FixHeader and io.Reader
 func NewPubcompPacket(fh *FixHeader, version Version, r io.Reader) (*Pubcomp, error) {
 	p := &Pubcomp{FixHeader: fh, Version: version}
+	if fh.Flags != FlagReserved { //[MQTT-2.2.2-2]
+		return nil, codes.ErrMalformed
+	}
 	err := p.Unpack(r)
 	if err != nil {
 		return nil, err
